@@ -410,7 +410,18 @@ class Run:
                     dt.append((n, "U%d" % max([1] + [len(r[j]) for r in rows])))
                 else:
                     dt.append((n, FMT[t]))
-            kw = dict(data=np.array([tuple(r) for r in rows], dtype=dt))
+            arr = np.array([tuple(r) for r in rows], dtype=dt)
+            if case.get("view") and len(cols) >= 2 and not any(t == "str" for _, t in cols):
+                # the same table as a multi-field view of a record array whose fields are laid out in another
+                # order: the column order is the order of the NAMES, not of the byte offsets
+                order = [n for n, _ in cols]
+                base_dt = [dt[j] for j in reversed(range(len(dt)))]
+                base = np.zeros(len(rows), dtype=base_dt)
+                for n in order:
+                    base[n] = arr[n]
+                arr = base[order]
+                self.classes.add("create:structured-view-with-permuted-offsets")
+            kw = dict(data=arr)
         try:
             self.df = self.blk.create_data_frame("frame", "t", **kw)
         except Exception as exc:  # noqa
@@ -817,6 +828,39 @@ class Run:
                     nrows, bad, len(rows[bad]), idx, m.nc), lambda: df.write_rows(rows, idx))
             return self.probe_call(what, "append_rows(<%d rows, row %d has %d cells>) on %d columns" % (
                 nrows, bad, len(rows[bad]), m.nc), lambda: df.append_rows(rows))
+        if what == "unordered_write_rows":
+            # an index list that is not strictly increasing (a permutation of a contiguous range, or with a
+            # duplicate): refused with the table unchanged, or row i of the call lands in row idx[i] (later entries
+            # win) - never anywhere else
+            if m.n < 4:
+                return "skip"
+            lo = op["row"] % (m.n - 3)
+            span = [lo, lo + 1, lo + 2, lo + 3]
+            idx = [[span[0], span[2], span[1], span[3]], [span[0], span[1], span[1], span[3]],
+                   [span[0], span[2], span[1], span[3]]][op["d"] % 3]
+            rows = [tuple(m.row([k + i])) for i in range(len(idx))]
+            desc = "write_rows(<%d rows>, %s)" % (len(rows), idx)
+            self.trace.append("probe: " + desc)
+            before = self.observe()
+            try:
+                df.write_rows(rows, idx)
+                raised = None
+            except Exception as exc:  # noqa
+                raised = type(exc).__name__
+            after = self.observe()
+            self.stat("probe:unordered_write_rows:%s" % ("refused" if raised else "accepted"))
+            if raised:
+                if after != before:
+                    self.viol("refusal/unordered_write_rows/table-changed", {"call": desc, "raised": raised})
+                    raise Abandon()
+                return "refused"
+            want = [list(r) for r in m.rows]
+            for i, r in zip(idx, rows):
+                want[i] = list(r)
+            m.rows = want
+            self.last = ("write_rows", "write_rows:unordered-index")
+            self.check_state()
+            return "accepted"
         if what == "oob_write_cell_pos":
             r = m.n + d - 1
             return self.probe_call(what, "write_cell(%r, position=(%d, %d)) on %d rows" % (show(val(t, k)), r, c, m.n),
@@ -887,7 +931,7 @@ def run_case(case, ctx):
 
 PROBES = ["len_write_column", "len_append_column", "unknown_write_column", "unknown_write_cell", "oob_write_rows",
           "oob_write_cell_pos", "oob_write_cell_name", "dup_append_column", "dup_create",
-          "badrow_write_rows", "badrow_append_rows", "text_write_rows", "count_write_rows"]
+          "badrow_write_rows", "badrow_append_rows", "text_write_rows", "count_write_rows", "unordered_write_rows"]
 
 
 def _isint(x):
@@ -1011,7 +1055,8 @@ def case_strategy(draw, max_ops=16):
     rows = draw(st.lists(st.lists(ATOM, min_size=ncols, max_size=ncols), min_size=nrows, max_size=nrows))
     prog = draw(st.lists(op_strategy(), min_size=3, max_size=max_ops))
     return {"cols": [[n, t] for n, t in zip(names, types)], "how": how, "rows": rows, "prog": prog,
-            "handles": draw(st.sampled_from(["single", "single", "fresh", "two", "two"]))}
+            "handles": draw(st.sampled_from(["single", "single", "fresh", "two", "two"])),
+            "view": draw(st.booleans())}
 
 
 def shards(tier, seed):
